@@ -988,8 +988,10 @@ async fn compact_folder_case(case: &Value) -> Value {
     for e in case["events"].as_array().unwrap() {
         events.push(write_event_of(e));
     }
-    let path = tmp_path("compact");
-    let _ = std::fs::remove_file(&path);
+    let dir = tmp_path("compactdir");
+    let _ = std::fs::remove_dir_all(&dir);
+    std::fs::create_dir_all(&dir).unwrap();
+    let path = dir.join("folder.events");
     let account = sos_core::AccountId::random();
     let folder_id = uuid_of(9);
     let lt = sos_core::events::EventLogType::Folder(folder_id);
@@ -1006,8 +1008,11 @@ async fn compact_folder_case(case: &Value) -> Value {
     let after = FolderReducer::new().reduce(&fresh).await.unwrap().build(true).await.unwrap();
     let a = vault_summary(&before).await;
     let b = vault_summary(&after).await;
-    let _ = std::fs::remove_file(&path);
+    let mut entries: Vec<String> = std::fs::read_dir(&dir).unwrap().map(|e| e.unwrap().file_name().to_string_lossy().to_string()).collect();
+    entries.sort();
+    let _ = std::fs::remove_dir_all(&dir);
     json!({"outcome":"ok", "result": result, "reopen": reopen, "tree_matches_file": memory == disk, "records_after": disk.len(),
+        "dir_entries": entries,
         "name_before": a["name"], "name_after": b["name"], "flags_before": a["flags"], "flags_after": b["flags"],
         "meta_before": a["meta"], "meta_after": b["meta"], "secrets_before": a["secrets"], "secrets_after": b["secrets"],
         "live": before.len()})
